@@ -3107,6 +3107,41 @@ func loadedFieldOwner(v ssa.Value) (*types.Var, string) {
 // ruleGuardOwnField — a metadata field that is copied under a "not empty" test
 // is copied under a test of ITSELF, and a metadata record is only made where
 // one of its fields is present.
+// condEdgesNilTest: the edges on which v (compared with nil somewhere in fn)
+// is known not to be nil, and those on which it is nil.
+func condEdgesNilTest(fn *ssa.Function, v ssa.Value) (notNil, isNil []Edge) {
+	for _, b := range fn.Blocks {
+		ifi, ok := b.Instrs[len(b.Instrs)-1].(*ssa.If)
+		if !ok {
+			continue
+		}
+		cond, neg := stripNot(ifi.Cond)
+		bo, ok := cond.(*ssa.BinOp)
+		if !ok || (bo.Op != token.EQL && bo.Op != token.NEQ) {
+			continue
+		}
+		var other ssa.Value
+		switch {
+		case isNilConst(bo.Y):
+			other = bo.X
+		case isNilConst(bo.X):
+			other = bo.Y
+		default:
+			continue
+		}
+		if canon(other) != canon(v) {
+			continue
+		}
+		nn := 1
+		if (bo.Op == token.NEQ) != neg {
+			nn = 0
+		}
+		notNil = append(notNil, Edge{b, nn})
+		isNil = append(isNil, Edge{b, 1 - nn})
+	}
+	return
+}
+
 func ruleGuardOwnField(id string) func(*Checker) {
 	return func(c *Checker) {
 		c.rule(id, "In the manifest writer and reader, (a) a string field that is stored, recorded or handed to a module function in a block that lies behind `field != \"\"` tests of fields of the same struct lies behind the not-empty edge of a test of that very field — `if m.message != \"\" { out.id = m.id }` drops a commit id whenever there is no message, and a reader that asks only for one field of two loses the other one alone (F49); (b) a *PackageMeta built from manifest fields is put into the bundle's table only behind the not-empty tests of exactly those fields (RemotePackageMeta answers nil where nothing is known).", 3)
@@ -3170,6 +3205,7 @@ func ruleGuardOwnField(id string) func(*Checker) {
 						}
 					}
 					var recEdges []Edge
+					var recEdgeField []string
 					recFields := []string{}
 					for _, v := range vals {
 						fld, owner := loadedFieldOwner(v)
@@ -3189,6 +3225,9 @@ func ruleGuardOwnField(id string) func(*Checker) {
 						if isRecord {
 							recEdges = append(recEdges, own...)
 							recFields = append(recFields, fld.Name())
+							for range own {
+								recEdgeField = append(recEdgeField, fld.Name())
+							}
 						}
 						if len(all) == 0 || !guarded(b2, all) {
 							continue
@@ -3202,6 +3241,21 @@ func ruleGuardOwnField(id string) func(*Checker) {
 						c.check(ok, id, p.FuncName(fn), fmt.Sprintf("field %s copied behind its own not-empty test", fld.Name()), p.Pos(in.Pos()), "a not-empty test of the field leads to the copy", "the copy of "+fld.Name()+" lies behind not-empty tests of other fields of "+owner+" only: the field is lost whenever those are empty, and copied empty when they are not")
 					}
 					if isRecord {
+						// … and wherever one of them is present: the not-empty edge of each leads to the record
+						// (leaving the record out where the value to record is nil loses nothing)
+						var nilSide []Edge
+						if mu, ok := in.(*ssa.MapUpdate); ok {
+							_, nilSide = condEdgesNilTest(fn, mu.Value)
+						}
+						for ei, e := range recEdges {
+							rec := in
+							first := e.To().Instrs[0]
+							okp := first == rec
+							if _, isRet := first.(*ssa.Return); !okp && !isRet {
+								okp, _ = mustPass(first, func(x ssa.Instruction) bool { return x == rec }, nilSide)
+							}
+							c.check(okp, id, p.FuncName(fn), fmt.Sprintf("metadata recorded wherever %s is present", recEdgeField[ei]), p.Pos(in.Pos()), "the not-empty edge of the field's test always reaches the record", "a *PackageMeta is put into the table only when several of its fields are present at once (`id != \"\" && message != \"\"`): metadata with one of them alone is dropped when the bundle is opened")
+						}
 						c.check(len(recEdges) > 0 && guarded(b2, recEdges), id, p.FuncName(fn), "metadata recorded only where a field is present", p.Pos(in.Pos()), "behind the not-empty tests of "+strings.Join(recFields, ", "), "a *PackageMeta is put into the table on a path that passes no not-empty test of the fields it is made of ("+strings.Join(recFields, ", ")+"): every package then has metadata, all of it empty")
 					}
 				}
